@@ -195,7 +195,7 @@ class TapeHooks:
                 st.w_old_len = (0, True)
                 st.w_first = st.w_recent[0] if st.w_recent else None
             st.flags["w_start"] = v[1]
-            st.flags.pop("$scanned", None)
+            st.flags.pop("wscanned", None)
             if st.mon is not None:
                 st.mon.commit(m, st, keep)
             return
@@ -320,16 +320,10 @@ class TapeHooks:
                 r = st.rel_pos(d[1], d[2])
                 uncommitted = not (r is not None and r[1] is not None and r[1] <= 0)
         if uncommitted:
-            n = st.flags.get("$scanned", 0)
+            n = st.flags.get("wscanned", 0)
             if n >= 1:
                 m.violate(st, "window-rescanned", "%s passes over input that is not yet committed and was already scanned since the last commit (work grows with the square of the pending length)" % what)
-            st.flags["$scanned"] = n + 1
-        else:
-            key = "$scan:%s" % (s[1],)
-            n = st.flags.get(key, 0)
-            if n >= 3:
-                m.violate(st, "region-rescanned", "%s is the %dth linear pass over the same region" % (what, n + 1))
-            st.flags[key] = n + 1
+            st.flags["wscanned"] = n + 1
 
     def on_enter(self, m, st, inst):
         if st.mon is not None:
